@@ -82,15 +82,32 @@ func loadWarm(t *rapid.T, c cfg) {
 	if c.Front {
 		front = append(front, &flow.Rule{ID: "front", Resource: "w", Threshold: 1e9}) // never blocks; reads the resource's shared window
 	}
-	r := &flow.Rule{Resource: "w", Threshold: c.T, TokenCalculateStrategy: flow.WarmUp, ControlBehavior: flow.Reject, WarmUpPeriodSec: c.P, WarmUpColdFactor: c.CF, StatIntervalInMs: c.I}
-	if c.Thr {
-		r.ControlBehavior, r.MaxQueueingTimeMs = flow.Throttling, 0
-	}
-	if _, err := flow.LoadRules(append(front, r)); err != nil {
+	if _, err := flow.LoadRules(append(front, warmRule(c))); err != nil {
 		t.Fatalf("LoadRules: %v", err)
 	}
 	if len(flow.GetRulesOfResource("w")) != 1+len(front) {
 		t.Fatalf("valid warm-up rule %+v not accepted", c)
+	}
+}
+
+func warmRule(c cfg) *flow.Rule {
+	r := &flow.Rule{Resource: "w", Threshold: c.T, TokenCalculateStrategy: flow.WarmUp, ControlBehavior: flow.Reject, WarmUpPeriodSec: c.P, WarmUpColdFactor: c.CF, StatIntervalInMs: c.I}
+	if c.Thr {
+		r.ControlBehavior, r.MaxQueueingTimeMs = flow.Throttling, 0
+	}
+	return r
+}
+
+// partialUpdate reloads the whole rule set with the rules of resource w unchanged (fresh equal objects) and a rule of
+// another resource changed: the warm-up state of w must survive.
+func partialUpdate(t *rapid.T, c cfg, k int) {
+	var l []*flow.Rule
+	if c.Front {
+		l = append(l, &flow.Rule{ID: "front", Resource: "w", Threshold: 1e9})
+	}
+	l = append(l, warmRule(c), &flow.Rule{Resource: "elsewhere", Threshold: float64(k)})
+	if _, err := flow.LoadRules(l); err != nil {
+		t.Fatalf("partial update: %v", err)
 	}
 }
 
@@ -196,6 +213,19 @@ func TestWarmUpEnvelope(t *testing.T) {
 				for s := warm * 1000 / ivMs; s < len(per); s++ {
 					if per[s] != floorT && !(g.Thr && per[s] >= floorT-1) {
 						t.Fatalf("after %d s of saturating demand (period %d s): second %d admitted %d, full threshold is floor(%v) (admitted/s %v)", warm, g.P, s, per[s], g.T, per)
+					}
+				}
+				// a partial update (the warm-up rule unchanged, a rule of another resource changed) in the middle of the demand:
+				// the rule stays warm
+				if rapid.Bool().Draw(t, "partialUpdateWhileWarm") {
+					partialUpdate(t, g, 1+rapid.IntRange(0, 5).Draw(t, "otherThreshold"))
+					again := demand(warm+4, 3, sat)
+					c.Op("after a partial update admitted/s %v", again)
+					c.Class("partial-update-while-warm")
+					for s, n := range again {
+						if n != floorT && !(g.Thr && n >= floorT-1) {
+							t.Fatalf("warmed up (period %d s), then the rule set was reloaded with this rule unchanged and a rule of another resource changed: second %d of the continued saturating demand admitted %d, full threshold is floor(%v) (admitted/s %v)", g.P, s, n, g.T, again)
+						}
 					}
 				}
 			}
